@@ -225,7 +225,57 @@ def sub_options(version: int, thorough: bool):
 
 
 def abi_sub_family(mode: str, version: int):
-    return []
+    """routines with ABI-typed (abi.Uint64) parameters mixed with Expr / ScratchVar parameters in every
+    order, and ABIReturnSubroutines with an output, also recursive (version >= 6 for the ABI types)"""
+    out = []
+    if version < 6:
+        return out
+    e = Env(mode, version)
+    N, M = e.u(0), e.u(1)
+
+    def add(name, main, subs, vars=None, opts=None):
+        out.append(("sub:abi-" + name, prog(mode, main, vars or {}, subs), opts or {}))
+
+    def P(n):
+        return ("Param", n)
+    # every order of one abi, one Expr and (optionally) one by-reference parameter
+    for order in itertools.permutations(["abi", "val", "ref"], 3):
+        params = [(k, "p%d" % i) for i, k in enumerate(order)]
+        pa = [n for k, n in params if k == "abi"][0]
+        pv = [n for k, n in params if k == "val"][0]
+        pr = [n for k, n in params if k == "ref"][0]
+        body = ("Seq", ("PStore", pr, ("Bin", "Add", ("PLoad", pr), ("Bin", "Mul", P(pa), ("Int", 10)))),
+                ("Bin", "Add", ("Bin", "Mul", P(pa), ("Int", 100)), P(pv)))
+        args = {"abi": e.tagged(N, 1), "val": e.tagged(M, 2), "ref": ("Ref", "v")}
+        for ret in ("u", "a"):
+            add("order-%s-%s" % ("".join(k[0] for k in order), ret),
+                ("Seq", ("Store", "v", ("Int", 3)), ("Return", ("Bin", "Add", ("Call", "f") + tuple(args[k] for k in order), ("Load", "v")))),
+                {"f": _sub(params, ret, body)}, {"v": {"t": "u"}})
+    for order in itertools.permutations(["abi", "val"], 2):
+        params = [(k, "p%d" % i) for i, k in enumerate(order)] + [("abi", "p2")]
+        body = ("Bin", "Add", ("Bin", "Mul", P("p0"), ("Int", 100)), ("Bin", "Add", ("Bin", "Mul", P("p1"), ("Int", 10)), P("p2")))
+        for ret in ("u", "a", "n"):
+            b = body if ret != "n" else ("Un", "Log", ("Un", "Itob", body))
+            main = ("Return", ("Call", "f", N, M, e.u(2))) if ret != "n" else ("Seq", ("Call", "f", N, M, e.u(2)), ("Return", ("Int", 1)))
+            add("two-%s-%s" % ("".join(k[0] for k in order), ret), main, {"f": _sub(params, ret, b)})
+    # recursive ABI-output subroutine with a local that must survive the call (scratch convention: spill/restore)
+    Pn = P("n")
+    dec = ("Bin", "Minus", Pn, ("Int", 1))
+    add("fact-output", ("Return", ("Call", "f", N)),
+        {"f": _sub([("abi", "n")], "a", ("If", ("Bin", "Le", Pn, ("Int", 1)), ("Int", 1), ("Bin", "Mul", Pn, ("Call", "f", dec))))})
+    add("fact-output-expr-param", ("Return", ("Call", "f", N)),
+        {"f": _sub([("val", "n")], "a", ("If", ("Bin", "Le", Pn, ("Int", 1)), ("Int", 1), ("Bin", "Mul", ("Call", "f", dec), Pn)))})
+    add("mutual-output-plain", ("Return", ("Call", "A", N)),
+        {"A": _sub([("abi", "n")], "a", ("If", ("Bin", "Eq", Pn, ("Int", 0)), ("Int", 5), ("Bin", "Add", ("Call", "B", dec, ("Int", 2)), Pn))),
+         "B": _sub([("val", "m"), ("abi", "k")], "u", ("Bin", "Add", ("Call", "A", ("Param", "m")), ("Param", "k")))})
+    add("mutual-output-none", ("Seq", ("Call", "B", N), ("Return", ("Int", 1))),
+        {"A": _sub([("abi", "n")], "a", ("Seq", ("If", Pn, ("Call", "B", dec)), ("Bin", "Add", Pn, ("Int", 100)))),
+         "B": _sub([("val", "m")], "n", ("Seq", ("Store", "y", ("Bin", "Add", ("Param", "m"), ("Int", 50))),
+                                         ("Store", "z", ("Call", "A", ("Param", "m"))),
+                                         ("Assert", ("Bin", "Eq", ("Load", "y"), ("Bin", "Add", ("Param", "m"), ("Int", 50)))),
+                                         ("Assert", ("Bin", "Eq", ("Load", "z"), ("Bin", "Add", ("Param", "m"), ("Int", 100))))))},
+        {"y": {"t": "u"}, "z": {"t": "u"}})
+    return out
 
 
 def random_sub_family(mode: str, version: int, seed: int, n: int):
